@@ -8,6 +8,7 @@ from ..core import case_seed
 from .. import gen, progs
 
 PID = 'C03'
+PEAK = 1e6          # compositions whose intermediates exceed this are not compared (cancellation in the summed output)
 TAU = 1e-7
 RULE = ('every program of the catalogue (single operations with all rank/axis/operand-kind variants, buffers, views, '
         'factorization outputs) x (D,P) x recording kind {ndarray, UTPM(1,1), UTPM(2,2), the evaluation polynomial itself followed by a sweep without re-evaluation} x recording point {= or != evaluation '
@@ -169,6 +170,8 @@ def run_case(ctx, case):
         desc, f = progs.random_program(rng, p['len'], 'vector')
         x = gen.series_data(rng, D, P, (3,), 'R', 'random', False, 0.4)
         base = gen.base_sampler('R')(rng, (3,))
+        if max(f.peak(x[0, pp]) for pp in range(P)) > PEAK:
+            ctx.skip('out_of_domain:ill-conditioned (intermediate values > 1e6 cancel in the output)'); return
         ops = sorted({st[0] + ':' + str(st[2] if st[0] in ('idx', 'red', 'buf', 'fact') else (st[3] if st[0] in ('dot', 'bin') else (st[2] if st[0] == 'lin' else ''))) for st in desc['steps']})
         duality(ctx, 'comp', 'comp', f, [x], rng, p['rec'], [base], ('comp', tuple(ops), D, P),
                 sample={'program': [list(map(str, s)) for s in desc['steps']], 'D': D, 'P': P} if rng.random() < 0.01 else None)
